@@ -738,7 +738,7 @@ func vwValid(n *vwNode, st vwStep, rnd *rand.Rand) (p []byte, wantLog []string, 
 		req := CreateIteratorRequest{ShardIDs: vwShardIDs(rnd), Measurement: m, Opt: vwOptions(rnd, typ)}
 		wantLog = []string{fmt.Sprintf("ShardGroup ids=%v", req.ShardIDs),
 			fmt.Sprintf("CreateIterator m=%s opt=%s", vwCanonMeasurement(&m), vwCanonOpt(&req.Opt))}
-		return vwMust(req.MarshalBinary()), wantLog, vwCanon(&CreateIteratorResponse{Type: typ}), typ, nil
+		return vwMust(req.MarshalBinary()), wantLog, vwCanon(&CreateIteratorResponse{Type: typ, Stats: query.IteratorStats{SeriesN: 2, PointN: len(vwStreamPoints(typ))}}), typ, nil
 	case "iteratorCost":
 		m := influxql.Measurement{Database: "db0", RetentionPolicy: "rp0", Name: "cpu"}
 		req := IteratorCostRequest{ShardIDs: vwShardIDs(rnd), Measurement: m, Opt: vwOptions(rnd, influxql.Float)}
@@ -1393,10 +1393,12 @@ func (n *vwNode) runCase(b *vwBeh, seed int64, onlyFrames int) (vwObs, []vwProbl
 					bad("lossy-response:"+st.Typ, "reply carries %s, the node answered %s", canon, f.wantResp)
 				}
 				if react == "ok" && st.Typ == "createIterator" {
-					if msg := vwCheckStream(replies[pos:], f.stream, rest[:used]); msg != "" {
-						bad("lossy-stream:"+f.stream.String(), "%s", msg)
+					if f.stream != influxql.Unknown {
+						if msg := vwCheckStream(replies[pos:], f.stream, rest[:used]); msg != "" {
+							bad("lossy-stream:"+f.stream.String(), "%s", msg)
+						}
 					}
-					pos = len(replies)
+					pos = len(replies) // whatever follows the reply is the point stream
 				}
 			}
 			obs.Reacts = append(obs.Reacts, react)
@@ -1559,6 +1561,14 @@ func TestVerifWireReplay(t *testing.T) {
 			}
 		}
 		for _, p := range probs {
+			if strings.HasPrefix(p.sig, "alloc:") {
+				// do not allocate gigabytes again and again: leave this length class out of the rest of the run
+				for _, st := range b.Steps {
+					if st.A == "frame" && st.Lenc != "small" && st.Lenc != "zero" && st.Lenc != "none" {
+						skip[st.Lenc+":"+st.Pay] = true
+					}
+				}
+			}
 			sigs[p.sig]++
 			if sigs[p.sig] <= 1 {
 				vtrace.Mismatch(p.sig, p.detail, map[string]interface{}{"test": "replay", "behaviour": b, "observed": obs})
